@@ -40,6 +40,10 @@ var corpus = []string{
 	`local t = {}; emit(select("#", rawset(t, "k", 1)), rawset(t, "j", 2) == t); emit(rawset(rawset({}, 1, "a"), 2, "b")[1]); local memo = setmetatable({}, {__index = function(self, k) emit("miss", k) return rawset(self, k, k * 2)[k] end}); emit(memo[21], memo[21], rawget(memo, 21))`,
 	// setmetatable with the second argument missing is an error and changes nothing (luaL_argcheck "nil or table expected")
 	`local t = setmetatable({}, {__index = function(t, k) return "served" end}); emit(pcall(setmetatable, t) == false, t.x); emit(pcall(function() return setmetatable(t) end) == false, t.y); setmetatable(t, nil); emit(t.z)`,
+	// fixed 5c2f2ce: a handler that is a callable table is called (any non-nil handler is)
+	`local H = setmetatable({}, {__call = function(self, a) emit("H", type(self), type(a)) return "handled" end}); local mt = {__add = H, __sub = H, __concat = H, __unm = H, __eq = H, __lt = H, __le = H, __tostring = H}; local x, y = setmetatable({}, mt), setmetatable({}, mt); emit(x + 1, 1 - x, x .. "a", "a" .. x, -x); emit(x == y, x ~= y, x < y, x <= y, x > y); emit(tostring(x))`,
+	// fixed 46ac53a: unary minus converts a numeric string before looking for __unm
+	`local smt = getmetatable(""); smt.__unm = function(a) emit("str-unm", a) return "mm" end; emit(-"10", -"2.5"); emit(pcall(function() return -"abc" end)); smt.__unm = nil; emit(pcall(function() return -"abc" end))`,
 	// fixed 52e547f: numbers and numeric strings are computed before an arithmetic handler is looked for
 	`local smt = getmetatable(""); smt.__add = function(a, b) emit("str-add", a, b); return "mm" end; emit("10" + 1, 1 + "10", "10" + "2"); emit(pcall(function() return "a" + 1 end)); emit(pcall(function() return 1 + "a" end)); local t = setmetatable({}, {__add = function(a, b) return type(a) .. type(b) end}); emit("10" + t, t + "10", t + 1); smt.__add = nil`,
 }
